@@ -2,6 +2,7 @@ package main
 
 import (
 	"go/ast"
+	"sort"
 	"strings"
 )
 
@@ -128,48 +129,54 @@ func isClosingField(e ast.Expr) bool {
 
 // Round 3: what the extended shutdown model (tunnels, MITM, hijack, write failures) relies on.
 func extractC07Round3(f *ast.File, g *gen) {
-	// (1) every deadline the proxy puts on a connection: function:method, in source order. The model has no
-	// step by which the PROXY abandons a response write; the only deadline is the per-iteration idle one.
-	var deadlines []string
-	// (2) every place where the shutdown signal is consulted or handed on: function:kind with kind one of
-	// close (close(x.closing)), recv (<-x.closing), arg (x.closing passed to a call), Closing (x.Closing()).
-	// The CONNECT path must not appear except for handing the channel to the HTTP/2 session.
+	// (1) the kinds of deadline the proxy puts on a connection anywhere in proxy.go (set of method names; not
+	// tied to a function, so an extracted helper changes nothing). The model has no step by which the PROXY
+	// abandons a response write: the only deadline is the idle one (read+write, `SetDeadline`).
+	dl := map[string]bool{}
+	// (2) how often the shutdown signal is consulted or handed on, by kind (sorted multiset; not tied to a
+	// function): close (close(x.closing)), recv (<-x.closing), arg:<callee> (x.closing passed to a call),
+	// Closing (x.Closing()). A new consultation anywhere (or a dropped one) changes it.
 	var uses []string
 	for _, d := range f.Decls {
 		fd, ok := d.(*ast.FuncDecl)
 		if !ok || fd.Body == nil {
 			continue
 		}
-		name := fd.Name.Name
 		ast.Inspect(fd.Body, func(n ast.Node) bool {
 			switch x := n.(type) {
 			case *ast.CallExpr:
 				m := lastSel(x.Fun)
 				switch m {
 				case "SetDeadline", "SetReadDeadline", "SetWriteDeadline":
-					deadlines = append(deadlines, name+":"+m)
+					dl[m] = true
 				case "Closing":
-					uses = append(uses, name+":Closing")
+					uses = append(uses, "Closing")
 				case "close":
 					if len(x.Args) == 1 && isClosingField(x.Args[0]) {
-						uses = append(uses, name+":close")
+						uses = append(uses, "close")
 					}
 				default:
 					for _, a := range x.Args {
 						if isClosingField(a) {
-							uses = append(uses, name+":arg:"+m)
+							uses = append(uses, "arg:"+m)
 						}
 					}
 				}
 			case *ast.UnaryExpr:
 				if x.Op.String() == "<-" && isClosingField(x.X) {
-					uses = append(uses, name+":recv")
+					uses = append(uses, "recv")
 				}
 			}
 			return true
 		})
 	}
-	g.def("deadlineSites", "List String", leanList(deadlines))
+	var deadlines []string
+	for m := range dl {
+		deadlines = append(deadlines, m)
+	}
+	sort.Strings(deadlines)
+	sort.Strings(uses)
+	g.def("deadlineKinds", "List String", leanList(deadlines))
 	g.def("closingUses", "List String", leanList(uses))
 
 	// (3) the order of the shutdown-relevant calls of `handle` (method names, source order): the request
@@ -203,7 +210,7 @@ func extractC07Round3(f *ast.File, g *gen) {
 		ast.Inspect(fd.Body, func(n ast.Node) bool {
 			if c, ok := n.(*ast.CallExpr); ok {
 				switch m := lastSel(c.Fun); m {
-				case "handle", "isCloseable", "Hijacked", "SetDeadline", "SetReadDeadline", "SetWriteDeadline":
+				case "handle", "isCloseable", "Hijacked":
 					loop = append(loop, m)
 				}
 			}
